@@ -145,14 +145,6 @@ func flight3Parse(
 				return 0, &alert.Alert{Level: alert.Fatal, Description: alert.InternalError}, err
 			}
 		}
-
-		if !cfg.HasSessionStore {
-			state.SessionID = []byte{}
-		} else {
-			state.SessionID = bytes.Clone(serverHelloMsg.SessionID)
-		}
-
-		state.MasterSecret = []byte{}
 	}
 
 	var serverFlightPull dtlsflight.HandshakeCachePullResult
@@ -177,6 +169,20 @@ func flight3Parse(
 		return 0, nil, nil
 	}
 	state.HandshakeRecvSequence = serverFlightPull.NextSequence
+
+	if hasServerHello {
+		// The server did not resume the offered session. The new session id is
+		// recorded only now that the whole flight has arrived: recording it on a
+		// partial flight made the next parse take this ServerHello for the
+		// resumption of the session it had just stored.
+		if !cfg.HasSessionStore {
+			state.SessionID = []byte{}
+		} else {
+			state.SessionID = bytes.Clone(serverHelloMsg.SessionID)
+		}
+
+		state.MasterSecret = []byte{}
+	}
 
 	if h, ok := serverFlightPull.Messages[handshake.TypeCertificate].(*handshake.MessageCertificate); ok {
 		state.PeerCertificates = util.CloneByteSlices(h.Certificate)
